@@ -31,8 +31,11 @@ static const struct {
 	{ "%s%s%s\n", 3, "sss" },
 	{ "width %*lu|%lu\n", 3, "wuu" },   /* '*' takes its width from the argument list: still three arguments */
 	{ "%-*s|\n", 2, "ws" },
+	/* wide fields: the formatted length sweeps every value from a few characters to beyond 256 */
+	{ "%*lu\n", 2, "Wu" },
+	{ "long %-*s|%lu\n", 3, "Wsu" },
 };
-#define NFMT 14
+#define NFMT 16
 
 int am_nfmt(void) { return NFMT; }
 int am_nargs(int f) { return F[f].nargs; }
@@ -43,6 +46,8 @@ static uintptr_t arg(int f, int i, unsigned long v)
 		return (uintptr_t)STRS[v % NSTR];
 	if (i < F[f].nargs && F[f].kinds[i] == 'w')
 		return (uintptr_t)(v % 12); /* a field width */
+	if (i < F[f].nargs && F[f].kinds[i] == 'W')
+		return (uintptr_t)(v % 270); /* a wide field */
 	return (uintptr_t)v;
 }
 
